@@ -1247,16 +1247,16 @@ end rootAppend
 
 variable {b1 b2 b3 : Bool}
 
-theorem docAppend_good (x : NodeRec) (s : St) : docAppend (Flags.goodWith b1 b2 b3) x s =
+theorem docAppend0_good (x : NodeRec) (s : St) : docAppend0 (Flags.goodWith b1 b2 b3) x s =
     { s with heap := s.heap ++ [x], roots := s.roots ++ [s.heap.length],
              ptrIdx := if !x.ptr.isEmpty then (x.ptr, s.heap.length) :: s.ptrIdx else s.ptrIdx,
              dfams := if x.tag == tFAM then none else s.dfams } := by
-  simp [docAppend, Flags.goodWith, Flags.good]
+  simp [docAppend0, Flags.goodWith, Flags.good]
 
-theorem docAppend_core {s : St} (hv : InvV s) (x : NodeRec) (hx : x.kids = []) :
-    InvV (docAppend (Flags.goodWith b1 b2 b3) x s) := by
+theorem docAppend0_core {s : St} (hv : InvV s) (x : NodeRec) (hx : x.kids = []) :
+    InvV (docAppend0 (Flags.goodWith b1 b2 b3) x s) := by
   obtain ⟨wf1, co1⟩ := alloc_core hv x hx
-  rw [docAppend_good]
+  rw [docAppend0_good]
   have hl : (alloc x s).heap.length = s.heap.length + 1 := by simp [alloc]
   have htag : (Abs.mk (s.heap ++ [x]) s.roots).tag s.heap.length = x.tag := tag_append_new _ _ _
   have hptr : (Abs.mk (s.heap ++ [x]) s.roots).ptr s.heap.length = x.ptr := ptr_append_new _ _ _
@@ -1306,19 +1306,19 @@ theorem docAppend_core {s : St} (hv : InvV s) (x : NodeRec) (hx : x.kids = []) :
       · simp only [hx', Bool.not_false, if_true]
         rw [lookup_cons, hc']
 
-theorem abs_docAppend (x : NodeRec) (s : St) :
-    abs (docAppend (Flags.goodWith b1 b2 b3) x s) = ⟨s.heap ++ [x], s.roots ++ [s.heap.length]⟩ := by
-  rw [docAppend_good]; rfl
+theorem abs_docAppend0 (x : NodeRec) (s : St) :
+    abs (docAppend0 (Flags.goodWith b1 b2 b3) x s) = ⟨s.heap ++ [x], s.roots ++ [s.heap.length]⟩ := by
+  rw [docAppend0_good]; rfl
 
 /-- a childless record that is not an individual and whose pointer no individual uses -/
-theorem docAppend_inv {s : St} (hi : Inv s) (x : NodeRec) (hx : x.kids = []) (ht : x.tag ≠ tINDI)
-    (hp : ptrFreeOfIndi (abs s) x.ptr = true) : Inv (docAppend (Flags.goodWith b1 b2 b3) x s) := by
+theorem docAppend0_inv {s : St} (hi : Inv s) (x : NodeRec) (hx : x.kids = []) (ht : x.tag ≠ tINDI)
+    (hp : ptrFreeOfIndi (abs s) x.ptr = true) : Inv (docAppend0 (Flags.goodWith b1 b2 b3) x s) := by
   have hi1 := alloc_inv hi x hx
-  have hv := docAppend_core (b1 := b1) (b2 := b2) (b3 := b3) hi.v x hx
+  have hv := docAppend0_core (b1 := b1) (b2 := b2) (b3 := b3) hi.v x hx
   refine Inv.of hv ?_
-  have hF : (docAppend (Flags.goodWith b1 b2 b3) x s).cFams = s.cFams := by rw [docAppend_good]
-  have hS : (docAppend (Flags.goodWith b1 b2 b3) x s).cSpouses = s.cSpouses := by rw [docAppend_good]
-  have hR : (docAppend (Flags.goodWith b1 b2 b3) x s).roots = s.roots ++ [s.heap.length] := by rw [docAppend_good]
+  have hF : (docAppend0 (Flags.goodWith b1 b2 b3) x s).cFams = s.cFams := by rw [docAppend0_good]
+  have hS : (docAppend0 (Flags.goodWith b1 b2 b3) x s).cSpouses = s.cSpouses := by rw [docAppend0_good]
+  have hR : (docAppend0 (Flags.goodWith b1 b2 b3) x s).roots = s.roots ++ [s.heap.length] := by rw [docAppend0_good]
   have hk : (Abs.mk (s.heap ++ [x]) s.roots).kids s.heap.length = [] :=
     kids_append_ge _ _ _ _ hx (Nat.le_refl _)
   have htag : (Abs.mk (s.heap ++ [x]) s.roots).tag s.heap.length = x.tag := tag_append_new _ _ _
@@ -1344,17 +1344,38 @@ theorem docAppend_inv {s : St} (hi : Inv s) (x : NodeRec) (hx : x.kids = []) (ht
   · intro e he hr hti
     rw [hF] at he
     rw [hR] at hr
-    rw [abs_docAppend] at hti ⊢
+    rw [abs_docAppend0] at hti ⊢
     have hr' := hroot e.1 hr hti
     rw [specIndFamilies_snoc _ _ _ hk ht' hp']
     exact hi1.2.fam e he hr' hti
   · intro e he hr hti
     rw [hS] at he
     rw [hR] at hr
-    rw [abs_docAppend] at hti ⊢
+    rw [abs_docAppend0] at hti ⊢
     have hr' := hroot e.1 hr hti
     rw [specSpouses_snoc _ _ _ hk ht' hp']
     exact hi1.2.spo e he hr' hti
+
+theorem docAppend_eq (x : NodeRec) (s : St) : docAppend (Flags.goodWith b1 b2 b3) x s =
+    bumpFamilyLinks (docAppend0 (Flags.goodWith b1 b2 b3) x s) := by
+  simp [docAppend, Flags.goodWith, Flags.good]
+
+theorem abs_docAppend (x : NodeRec) (s : St) :
+    abs (docAppend (Flags.goodWith b1 b2 b3) x s) = ⟨s.heap ++ [x], s.roots ++ [s.heap.length]⟩ := by
+  rw [docAppend_eq]
+  exact abs_docAppend0 (b1 := b1) (b2 := b2) (b3 := b3) x s
+
+/-- with the version bump `Document.AddNode` keeps every cache coherent for a record of any tag and
+    any pointer -/
+theorem docAppend_inv {s : St} (hi : Inv s) (x : NodeRec) (hx : x.kids = []) :
+    Inv (docAppend (Flags.goodWith b1 b2 b3) x s) := by
+  rw [docAppend_eq]
+  exact bump_inv (docAppend0_core hi.v x hx)
+
+theorem docAppend_core {s : St} (hv : InvV s) (x : NodeRec) (hx : x.kids = []) :
+    InvV (docAppend (Flags.goodWith b1 b2 b3) x s) := by
+  rw [docAppend_eq]
+  exact (bump_inv (docAppend0_core hv x hx)).v
 
 theorem addIndividual_inv {s : St} (hi : Inv s) (p : Str) : Inv (addIndividual (Flags.goodWith b1 b2 b3) p s) := by
   have : addIndividual (Flags.goodWith b1 b2 b3) p s = resetIndividuals (docAppend (Flags.goodWith b1 b2 b3) ⟨tINDI, [], p, [], 0⟩ s) := by
@@ -1365,7 +1386,7 @@ theorem addIndividual_inv {s : St} (hi : Inv s) (p : Str) : Inv (addIndividual (
 theorem addFamily_inv {s : St} (hi : Inv s) (p : Str) (hp : ptrFreeOfIndi (abs s) p = true) :
     Inv (addFamily (Flags.goodWith b1 b2 b3) p s) := by
   have h1 : Inv (docAppend (Flags.goodWith b1 b2 b3) ⟨tFAM, [], p, [], 0⟩ s) :=
-    docAppend_inv hi _ rfl (by show tFAM ≠ tINDI; decide) hp
+    docAppend_inv hi _ rfl
   obtain ⟨h2, a2, _⟩ := docFamilies_sound (pre := fun _ => True) _ h1 trivial
   unfold addFamily
   cases b3
@@ -1947,8 +1968,7 @@ theorem exec_inv {s : St} (hi : Inv s) (op : Op) (hok : op.ok (abs s) = true) :
     simp only [Op.ok, Bool.and_eq_true, decide_eq_true_eq, List.all_eq_true] at hok
     exact (setKidsOp_good hi hok.1 ks fun c hc => by simpa using hok.2 c hc).1
   | docAddNode t v p =>
-    simp only [Op.ok, Bool.and_eq_true] at hok
-    exact docAppend_inv hi _ rfl (plainTag_ne_INDI hok.1) hok.2
+    exact docAppend_inv hi _ rfl
   | addIndividual p => exact addIndividual_inv hi p
   | addFamily p => exact addFamily_inv hi p hok
   | addFamilyHW p h w =>
